@@ -614,6 +614,9 @@ func (b *builder) nodeOpts(p *Plan, n *Node, full string) []compose.GraphAddNode
 	if n.OutKey != "" {
 		opts = append(opts, compose.WithOutputKey(n.OutKey))
 	}
+	if n.InKey != "" {
+		opts = append(opts, compose.WithInputKey(n.InKey))
+	}
 	switch n.Pre {
 	case HValue:
 		opts = append(opts, compose.WithStatePreHandler(func(ctx context.Context, in M, st *St) (M, error) {
